@@ -66,3 +66,32 @@ Definition read_at (s : lstore) (b off : nat) : option (Z * V) :=
   match lget s b with Some (items, _) => nth_error items off | None => None end.
 
 End Iter.
+
+(* ---------- wire: one iterator of the C implementation, step by step ---------- *)
+(* Before every next() the harness records the leaf store as it is THEN (every
+   bucket object it has ever seen on the chain, by identity: keys, next) and
+   what the call did; the iterator's initial state is its creation-time range
+   (first leaf, last leaf, offset of the last entry). *)
+Inductive wleaf := WLf (id : nat) (keys : list Z) (next : option nat).
+Inductive wout := WEntry (k : Z) | WStop | WRuntime.
+Inductive wistep := WIS (store : list wleaf) (out : wout).
+Inductive wicase := IC (cur : option nat) (last lastoff : nat) (steps : list wistep).
+
+Definition store_of (l : list wleaf) : lstore unit :=
+  map (fun w => match w with WLf i ks nx => (i, (map (fun k => (k, tt)) ks, nx)) end) l.
+Definition out_matches (r : stepres unit) (o : wout) : bool :=
+  match r, o with
+  | SEntry _ (k, _), WEntry k' => Z.eqb k k'
+  | SStop _, WStop => true
+  | SRuntimeError _, WRuntime => true
+  | _, _ => false
+  end.
+Fixpoint iter_trace_ok (it : iter) (steps : list wistep) : bool :=
+  match steps with
+  | [] => true
+  | WIS st o :: r =>
+    let '(res, it') := iter_next unit (store_of st) it in
+    out_matches res o && iter_trace_ok it' r
+  end.
+Definition icase_ok (c : wicase) : bool :=
+  match c with IC cur last lastoff steps => iter_trace_ok (mkIt cur 0 last lastoff false) steps end.
